@@ -47,7 +47,7 @@ fn all_starts(s: &Starts) -> Vec<StartState> {
 // ---------------------------------------------------------------------------------------------
 // C02 / C03: control flow
 
-fn control_flow(ctx: &Ctx, homes: &(dyn Fn(Kind) -> bool + Sync), rich_entries: Vec<&'static str>) -> i32 {
+fn control_flow(ctx: &Ctx, homes: &(dyn Fn(Kind) -> bool + Sync), rich_entries: Vec<&'static str>, data_event_variants: bool) -> i32 {
     let sampler = Sampler::new(4, ctx.seed);
     let mut st = TreeStats::default();
     let starts = build_starts(ctx, homes, &mut st);
@@ -59,6 +59,11 @@ fn control_flow(ctx: &Ctx, homes: &(dyn Fn(Kind) -> bool + Sync), rich_entries: 
     st = st.merge(drive(ctx, &Core::new(1, small_hi), &starts.fixed, false, homes, &sampler));
     st = st.merge(drive(ctx, &Rich::new(1, rich_hi, rich_entries), &all[..ctx.tier.pick(2, all.len())], false, homes, &sampler));
     st = st.merge(drive(ctx, &Cond::new(1, ctx.tier.pick(5, 6)), &[starts.genesis.clone()], false, homes, &sampler));
+    if data_event_variants {
+        // what a reply is told (events and data of the sub-message: present, absent, empty) over all
+        // 24 data / event variants per node
+        st = st.merge(drive(ctx, &DataEv::new(1, 3, vec!["execute", "migrate"]), &[starts.genesis.clone()], false, homes, &sampler));
+    }
     // histories: every state reachable by <= depth small transactions x all small programs
     let reach = reachable_starts(ctx, &starts.genesis, reach_depth, homes, &mut st);
     st = st.merge(drive(ctx, &Core::new(1, reach_hi), &reach, false, homes, &sampler));
@@ -69,7 +74,8 @@ fn control_flow(ctx: &Ctx, homes: &(dyn Fn(Kind) -> bool + Sync), rich_entries: 
         nstarts,
         &sampler,
         json!({"core_size_max_from_genesis": core_hi, "core_size_max_from_fixed_states": small_hi, "rich_size_max": rich_hi,
-               "reachable_start_states": reach.len(), "reachable_depth": reach_depth, "core_size_max_from_reachable_states": reach_hi}),
+               "reachable_start_states": reach.len(), "reachable_depth": reach_depth, "core_size_max_from_reachable_states": reach_hi,
+               "data_event_family_size_max": if data_event_variants { 3 } else { 0 }}),
         vec![],
         vec![],
         json!({}),
@@ -78,12 +84,12 @@ fn control_flow(ctx: &Ctx, homes: &(dyn Fn(Kind) -> bool + Sync), rich_entries: 
 
 pub fn run_c02(ctx: &Ctx) -> i32 {
     let homes = |k: Kind| matches!(k, Kind::Outcome | Kind::State | Kind::EntryStore | Kind::EntryQuery | Kind::EntryPresence | Kind::ReplyMissingForFailure | Kind::AbsorbedFailure | Kind::Panic);
-    control_flow(ctx, &homes, vec!["execute"])
+    control_flow(ctx, &homes, vec!["execute"], false)
 }
 
 pub fn run_c03(ctx: &Ctx) -> i32 {
     let homes = |k: Kind| matches!(k, Kind::ReplyPresence | Kind::ReplyMissingForFailure | Kind::ReplyArgs | Kind::ReplyEvents | Kind::ReplyData | Kind::EntryPresence | Kind::Panic);
-    control_flow(ctx, &homes, vec!["execute", "instantiate"])
+    control_flow(ctx, &homes, vec!["execute", "instantiate"], true)
 }
 
 // ---------------------------------------------------------------------------------------------
